@@ -81,6 +81,20 @@ objs=[f*v*dx]'''),
 ]
 
 # no metadata: polynomial integrands on affine cells are integrated exactly (oracle uses a high-degree rule)
+MULTI += [
+    # the same degree under different schemes, inside one integral and across the forms of one module: the rule is
+    # determined by (cell, degree, scheme, polyset), and the integrands are not integrated exactly by either rule
+    _c("c11_same_degree_different_schemes", '''
+m=mesh("interval"); V=space(m,"P",2); v=TestFunction(V); f=Coefficient(V)
+mt=mesh("triangle"); Vt=space(mt,"P",2); vt=TestFunction(Vt); ft=Coefficient(Vt)
+mq=mesh("quadrilateral"); Vq=space(mq,"Q",2); vq=TestFunction(Vq); fq=Coefficient(Vq)
+objs=[f*f*f*v*dx(degree=4) + f*f*v*dx(degree=4, scheme="GLL"), f*f*f*v*dx(degree=4, scheme="GLL"),
+      ft*ft*ft*vt*dx(degree=3) + ft*ft*vt*dx(degree=3, scheme="Gauss-Jacobi"), ft**4*vt*dx(degree=3, scheme="Gauss-Jacobi"),
+      fq*fq*vq*dx(degree=5) + fq**3*vq*dx(degree=5, scheme="GLL"), fq**4*vq*ds(degree=3, scheme="GLL") + fq*vq*ds(degree=3)]'''),
+    _c("c11_scheme_after_default_same_degree_tet", '''
+m=mesh("tetrahedron"); V=space(m,"P",1); v=TestFunction(V); f=Coefficient(V)
+objs=[f**3*v*dx(degree=2), f**3*v*dx(degree=2, scheme="Gauss-Jacobi"), f**3*v*ds(degree=2), f**3*v*ds(degree=2, scheme="Gauss-Jacobi")]'''),
+]
 NOMETA = [
     _c("c11_nometa_p2_mass_coef_tri", '''
 m=mesh("triangle"); V=space(m,"P",2); u,v=TrialFunction(V),TestFunction(V); f=Coefficient(V)
